@@ -62,8 +62,16 @@ let () =
       else begin
         (* monitors on the Go observations *)
         let singles = List.map2 single_verdict offers fresh in
+        (* an offer a new negotiator declines although the configuration (which is the answer the negotiator gives,
+           Negotiate.fresh of the model) is a legal answer to it: an acceptable offer is passed over *)
+        let declined_acceptable = List.exists2 (fun (name, ps) (f, _) ->
+          f = AEmpty && (match Negotiate.fresh cfg (name, ps) with
+                         | AOpt _ as y -> single_verdict (name, ps) (y, None) = None
+                         | _ -> false)) offers fresh in
         match first_some singles with
         | Some msg -> Viol msg
+        | None when declined_acceptable ->
+          Viol "an acceptable offer is declined (the server's configuration is a legal answer to it): not the first acceptable offer is answered"
         | None ->
           let bad_name = List.exists (fun (_, n) -> match n with Some n -> n <> ext_name | None -> false) answers in
           let rec steps ops ans fr = match ops with
